@@ -421,9 +421,19 @@ func (tt *TermTable) Bin(op Op, a, b *Term) *Term {
 				return tt.Concat(tt.Extract(a, w-1-s, 0), tt.Const(s, 0))
 			}
 		}
-	case OpUDiv:
+	case OpUDiv, OpSDiv:
 		if b.isConst() && b.val == 1 && w <= 64 {
 			return a
+		}
+		if op == OpUDiv && b.isConst() && w <= 64 && b.val != 0 && b.val&(b.val-1) == 0 {
+			return tt.Bin(OpLshr, a, tt.Const(w, uint64(bits.TrailingZeros64(b.val))))
+		}
+	case OpURem, OpSRem:
+		if b.isConst() && b.val == 1 && w <= 64 {
+			return tt.Const(w, 0)
+		}
+		if op == OpURem && b.isConst() && w <= 64 && b.val != 0 && b.val&(b.val-1) == 0 {
+			return tt.Bin(OpAnd, a, tt.Const(w, b.val-1))
 		}
 	}
 	return tt.mk(&Term{op: op, w: w, args: []*Term{a, b}})
